@@ -40,8 +40,10 @@ def is_exact(mode, ast):
     return all(S.is_exact_segment(seg) for seg in segments_of(mode, ast))
 
 
-def build_spec(sym, mode, ast, fi, relaxed, allow_abs_globstar=False):
-    sp = S.Spec(sym, path=fi['path'], dot=fi['dot'], ci=fi['ci'], nodotdir=fi['nodotdir'], relaxed=relaxed)
+def build_spec(sym, mode, ast, fi, relaxed, allow_abs_globstar=False, overrides=None):
+    kw = dict(path=fi['path'], dot=fi['dot'], ci=fi['ci'], nodotdir=fi['nodotdir'], relaxed=relaxed)
+    kw.update(overrides or {})
+    sp = S.Spec(sym, **kw)
     if mode == 'fn':
         return sp.name_full(ast)
     return sp.path_full(ast, globstar=fi['globstar'], globstarlong=fi['globstarlong'], matchbase=fi['matchbase'],
@@ -70,8 +72,13 @@ def obligation(item, N, live_regions):
         return res
     exact = is_exact(mode, ast)
     res['exact'] = exact
+    overrides = {}
+    for key, pat_pred, kw in regions.RELAX_REGIONS:
+        if key in live_regions and pat_pred(mode, ast, fi):
+            res['regions'].append(key)
+            overrides.update(kw)
     try:
-        may = build_spec(sym, mode, ast, fi, relaxed=not exact, allow_abs_globstar=True)
+        may = build_spec(sym, mode, ast, fi, relaxed=not exact, allow_abs_globstar=True, overrides=overrides)
         must = build_spec(sym, mode, ast, fi, relaxed=False) if exact else FALSE
     except Exception as ex:  # noqa: BLE001
         res['status'] = 'spec_error'
